@@ -61,13 +61,15 @@ def perturb(rnd, m, desc, diff):
         a = dict(desc["a"])
         if a["prec"] != "hms" or "dec" in a:
             return None
+        exact = desc["fmt"] == 1 or recur.is_exact(desc["d"])
+        if exact and (a["hh"], a["mi"], a["ss"]) == (0, 0, 0) and rnd.random() < 0.6:
+            d2["a"] = recur.as_2400(m, a)         # the same anchor written as 24:00 of the previous day, same offset
+            return d2
         d2["a"] = _hms(respell(rnd, m, a))
-        if d2["a"]["hh"] == 24:
-            return None
+        if d2["a"]["hh"] == 24 and not exact:
+            return None      # month/year stepping from a 24:00 anchor admits two readings (C05): not demanded to agree
         if desc["fmt"] == 1:
             d2["s"] = _hms(respell(rnd, m, desc["s"]))
-            if d2["s"]["hh"] == 24:
-                return None
         elif recur.is_exact(desc["d"]) and "w" not in desc["d"]:
             d = desc["d"]
             d2["d"] = {"s": d.get("d", 0) * 86400 + d.get("h", 0) * 3600 + d.get("mi", 0) * 60 + d.get("s", 0)}
@@ -83,7 +85,7 @@ def run_case(case, rec, cid):
     r = recur.build(desc)
     kind = case["kind"]
     if kind == "shift":
-        pts, complete = recur.iterate(rec, cid, desc, r)
+        pts, complete = recur.given(rec, cid, desc, r) if recur.known_class(desc) else recur.iterate(rec, cid, desc, r)
         d = mk_dur(case["d"])
         how = case["how"]
 
@@ -166,12 +168,22 @@ def expand(job):
         while recur.known_class(desc) or recur.float_class(desc):
             desc = recur.rand_recurrence(rnd, m, whole_anchor=True, maxn=rnd.choice([1, 3, 5]))
         desc["a"] = _hms(desc["a"])
+        if rnd.random() < 0.12 and desc["fmt"] != 1 and not desc["a"].get("dec"):
+            desc["a"] = dict(desc["a"], hh=0, mi=0, ss=0)      # anchors at local midnight (half of them in UTC): they have a 24:00 spelling
+            if rnd.random() < 0.5:
+                desc["a"].update(zh=0, zm=0)
         x = rnd.random()
         if 0.45 <= x < 0.6:      # equality of end-anchored month/year recurrences (iteration of that class is C12's finding)
             dk = recur.rand_recurrence(rnd, m, exact=False, bounded=True, fmt=4, whole_anchor=True, maxn=3)
             dk["a"] = _hms(dk["a"])
             yield {"mode": sp, "rec": dk, "kind": "eq", "diff": rnd.choice(["end", "n", "interval", "none"]), "seed": rnd.randrange(10 ** 9), "noiter": True}
             continue
+        if x < 0.07:
+            # shifting an end-anchored month/year recurrence (its iteration is C12's finding; the shift must still move the end)
+            desc = recur.rand_recurrence(rnd, m, exact=False, bounded=True, fmt=4, whole_anchor=True, maxn=4)
+            desc["a"] = _hms(desc["a"])
+            if recur.float_class(desc):
+                continue
         if x < 0.45:
             d = dict(rnd.choice(SHIFTS))
             if rnd.random() < 0.4:
